@@ -137,6 +137,7 @@ func runC12(ctx *Ctx) {
 			}
 		}
 		ctx.Tag("scheme:" + scheme)
+		c12d12bScenario(ctx, fn.name, args, ws)
 		// correspondence: the modelled Impl/Type callbacks (Stdlib/*.lean, written for C13 and exercised there on
 		// wholly known arguments only) against the real function on the WEAKENED arguments — their unknown branches
 		if mn, ok := c12Modelled[fn.name]; ok {
